@@ -316,6 +316,29 @@ def one_case(run, seed, idx, mods, libs):
             V("layout:labels-int64", "refine_assigned gives different results for Fortran-ordered g-vectors / int64 labels "
               "(npk %d vs %d)" % (npkF, npk))
 
+    # ---- the ubi argument is refined IN PLACE: callers hold it as a slice of a (ngrains,3,3) stack, a transposed UB, a
+    # float32 map ...  The wrapper may refuse such an array; accepting it and refining a private copy (the caller keeps
+    # the unrefined matrix together with the n / drlv2 of the refined one) is not allowed.
+    if n and nr > 0 and u1.tobytes() != ubi.tobytes() and r.random() < 0.3:
+        for variant in ("fortran", "strided", "float32"):
+            if variant == "fortran":
+                uv = np.asfortranarray(ubi.copy())
+            elif variant == "strided":
+                uv = np.zeros((3, 6))[:, ::2]
+                uv[:] = ubi
+            else:
+                uv = ubi.astype(np.float32)
+            before = uv.copy()
+            try:
+                nrv, meanv = cImageD11.score_and_refine(uv, gv, tol)
+            except Exception:
+                run.count("ubi_argument_variants_refused")
+                continue
+            run.count("ubi_argument_variants_accepted")
+            if np.array_equal(uv, before):
+                V("layout:ubi-not-refined-in-place:" + variant, "score_and_refine accepted a %s ubi array, reported n=%d, and "
+                  "left the caller's matrix unrefined (the contiguous float64 call refines it in place)" % (variant, nrv))
+
     # ---- python indexing.refine as a second opinion (needs >=1 selected peak, else it raises by design)
     if n_lo == n_hi and n_lo > 0 and (n <= 100 or r.random() < 0.4 or idx % 106 == 7):
         python_refine(run, V, indexing, d, ubi, gv, ih, np.asarray(inside), tol, hm)
